@@ -14,7 +14,8 @@ RULE = ("mutable types x values x read / mutation histories run on a view whose 
         "the store being a root-keyed table of the materialised backing that raises NavigationError for leaves and "
         "logs every call; after every command root + encoding of every held view vs the model (VirtN + src table) and "
         "(model-free) vs the same history on the materialised tree; no (node, question) pair is asked twice; "
-        "non-trivial = >= 2 commands")
+        "every prefix of the history is also replayed on a fresh virtual tree with NO read in between (write-before-read) and "
+        "its final observation compared with the materialised run; non-trivial = >= 2 commands")
 
 
 class Store:
@@ -74,6 +75,26 @@ class NodeProxy:
     def is_leaf(self, key):
         self.asked.append("leaf")
         return self.store.is_leaf(key)
+
+
+def lazy_run(t, v, cmds, k, store):
+    """run cmds[:k] with no observation in between.  store=None: on the materialised tree, returning the list of
+    (success flags, final observation) for every prefix length; otherwise on a fresh virtual tree over store,
+    returning that pair for prefix length k."""
+    from remerkleable.virtual import VirtualNode
+    per_prefix = []
+    for kk in (range(1, k + 1) if store is None else [k]):
+        sh = Shadow(t, v)
+        if store is not None:
+            sh.views[0] = T(t).view_from_backing(VirtualNode(sh.views[0].hash_tree_root(), NodeProxy(store)))
+        oks = []
+        for c in cmds[:kk]:
+            if c[1] >= len(sh.views):
+                oks.append(None)
+                continue
+            oks.append(not isinstance(attempt(lambda: sh.run(c), anyerr=True), E))
+        per_prefix.append([oks, sh.observe()])
+    return per_prefix if store is None else per_prefix[0]
 
 
 def gen_inputs(ctx):
@@ -138,6 +159,22 @@ def build(inp):
     for pr in store.proxies:
         if why is None and len(set(pr.asked)) != len(pr.asked):
             why = "a virtual node obtained the same child / leaf answer from its source twice: %r" % (pr.asked,)
+    # write-before-read schedules: the run above observes (root + encoding of every held view) after every command,
+    # so every sibling along a later write path has been fetched and memoised by then.  Replay every prefix of the
+    # history on a FRESH virtual tree with no observation in between and look only at the end: the writes then go
+    # through virtual nodes none of whose children was fetched before.
+    mat_obs = lazy_run(t, v, cmds, len(cmds), None)
+    for k in range(1, len(cmds) + 1):
+        if why is not None:
+            break
+        st2 = Store(mat.get_backing())
+        lz = attempt(lambda: lazy_run(t, v, cmds, k, st2), anyerr=True)
+        if isinstance(lz, E) or lz != mat_obs[k - 1]:
+            why = ("the first %d commands run without any read in between on a fresh virtual tree end differently "
+                   "than on the materialised tree" % k)
+        for pr in st2.proxies:
+            if why is None and len(set(pr.asked)) != len(pr.asked):
+                why = "write-before-read schedule: a virtual node asked its source twice: %r" % (pr.asked,)
     coq = "(%s, %s, %s, %s)" % (ty_coq(t), val_coq(t, v), clist(coq_cmds), clist(cN(g) for g in gs))
     names = ["P:initial"] + ["P:step%d" % (i + 1) for i in range(len(cmds))]
     c = Case(inp, coq, obs, names, nontrivial=len(cmds) >= 2, kind=t[0])
